@@ -2,7 +2,7 @@
    "In every process" is represented by "for every oracle (= iteration order) at the modelled sites". *)
 From Coq Require Import String List Bool ZArith Permutation.
 Import ListNotations.
-Require Import V.Lib.PyStr V.Lib.JTree V.Det.Model V.Det.Proofs V.Det.Congr V.Det.Refs V.Det.Naming.
+Require Import V.Lib.PyStr V.Lib.JTree V.Det.Model V.Det.Proofs V.Det.Congr V.Det.Refs V.Det.Naming V.Det.Session V.Det.Aggregate.
 Open Scope string_scope.
 Open Scope list_scope.
 
@@ -151,6 +151,61 @@ Theorem C15_naming_invariant :
 Proof. split; [exact dsl_names_rel|]. intros envs envs' H. exact (env_names_rel envs envs' H []). Qed.
 Print Assumptions C15_naming_invariant.
 
+(* ---------------------------------------------------------------- several loads in one process *)
+(* layer_many_variable_files on the list AS GIVEN (no de-duplication, repetitions included): every leaf path has
+   the value of the last file of the list that defines it, and the whole dictionary is the same up to the order
+   of entries for any two iteration orders and key-permuted but equal files. *)
+Theorem C15_layer_many_last_wins : forall piK (read : string -> jv) files p r,
+  perm_oracle piK -> p <> [] ->
+  (forall f, In f files -> wfk (read f)) ->
+  (forall f, In f files -> leaf_in p (read f)) ->
+  layer_many piK read files = Some r ->
+  get_path p r = last_def p (map read files).
+Proof. exact layer_many_last_wins. Qed.
+Print Assumptions C15_layer_many_last_wins.
+
+Theorem C15_layer_many_same_in_every_process : forall piK piK' (read read' : string -> jv) files,
+  perm_oracle piK -> perm_oracle piK' ->
+  (forall f, In f files -> wfk (read f)) ->
+  (forall f, In f files -> jperm (read f) (read' f)) ->
+  match layer_many piK read files, layer_many piK' read' files with
+  | Some r, Some r' => jperm r r'
+  | None, None => True
+  | _, _ => False
+  end.
+Proof. exact layer_many_congr. Qed.
+Print Assumptions C15_layer_many_same_in_every_process.
+
+(* "In every process" includes a process that has ALREADY loaded other things: the load a process performs after
+   any loads `before` (which may use the same files in another order, subsets of them, other contents of them)
+   and before any loads `after` gives what a FRESH process (its own iteration orders, key-permuted but equal
+   files) gives for the same contents and the same list: both fail, or the same dictionary up to the order of
+   entries.  The result of a load is a function of (contents, list given) only. *)
+Theorem C15_session_same_as_fresh_process : forall piK piK' before after (read read' : string -> jv) files,
+  perm_oracle piK -> perm_oracle piK' ->
+  (forall f, In f files -> wfk (read f)) ->
+  (forall f, In f files -> jperm (read f) (read' f)) ->
+  match load_at piK before (read, files) after, load_variables piK' read' files with
+  | Some r, Some r' => jperm r r'
+  | None, None => True
+  | _, _ => False
+  end.
+Proof. exact session_same_as_fresh. Qed.
+Print Assumptions C15_session_same_as_fresh_process.
+
+(* ---------------------------------------------------------------- S7: aggregation of replicated references *)
+(* compile_component_aggregate rewrites with one pass per replicated reference (absolute spelling, else relative)
+   in the order of the collection apply_replicate hands to it.  Under separation of the spellings in the
+   tokenised string (V.Args.Model.separatedb / unambiguousb) ANY iteration order of the collection gives the
+   result of the document-ordered list, which is the simultaneous substitution of the tokens.  Without
+   separation the order matters (C15_aggregate_set_order_refuted): the collection has to be the list. *)
+Theorem C15_aggregate_separated : forall piS refs ps,
+  perm_oracle piS -> AM.separatedb refs ps = true -> AM.unambiguousb refs ps = true ->
+  aggregate_set piS refs (AM.flatten ps) = aggregate_list refs (AM.flatten ps) /\
+  aggregate_list refs (AM.flatten ps) = AM.spec refs ps.
+Proof. exact aggregate_separated. Qed.
+Print Assumptions C15_aggregate_separated.
+
 (* non-vacuity: three files a, b, c given as [a; b; c; a]; x is defined by all of them, y only by b.
    The hypotheses hold, the loader succeeds, x comes from a (the last one given), y from b; reversing
    every iteration order changes nothing; the memo buffer of a permuted dictionary is the same. *)
@@ -258,4 +313,35 @@ Proof.
     + split; [apply perm_swap|]. cbn. repeat constructor; cbn; intuition discriminate.
     + split; [apply Permutation_refl|]. cbn. repeat constructor; cbn; tauto.
     + split; [apply Permutation_refl|]. cbn. repeat constructor; cbn; tauto.
+Qed.
+
+(* non-vacuity of the session / layer_many / S7 statements: a process layers [a; b], then [b; a], then [a] alone
+   (shared files, other orders, a subset): the third load gives x = A without the y of b, exactly what the load
+   alone gives; layer_many keeps a repeated path where it is; two replicated producers whose absolute spellings
+   are used are separated, and every order of the collection gives the expected aggregation. *)
+Definition ex_agg_refs : list AM.dref :=
+  [rref "stage0.mygen:ref" "mygen:ref" ["stage0.mygen0:ref"; "stage0.mygen1:ref"];
+   rref "stage0.gen:ref" "gen:ref" ["stage0.gen0:ref"; "stage0.gen1:ref"]].
+Definition ex_agg_ps : list AM.piece :=
+  [AM.Lit "cat "; AM.Tok "stage0.mygen:ref"; AM.Lit " "; AM.Tok "stage0.gen:ref"].
+
+Example C15_nonvacuous_session :
+  let before := [(ex_read, ["a"; "b"]); (ex_read, ["b"; "a"])] in
+  (exists r, load_at id_oracle before (ex_read, ["a"]) [(ex_read, ["b"])] = Some r /\
+             get_path ["global"; "x"] r = Some (JStr "A") /\ get_path ["global"; "y"] r = None /\
+             load_variables (@rev _) ex_read' ["a"] = Some r) /\
+  (exists r1 r2, nth 0 (session id_oracle before) None = Some r1 /\ nth 1 (session id_oracle before) None = Some r2 /\
+                 get_path ["global"; "x"] r1 = Some (JStr "B") /\ get_path ["global"; "x"] r2 = Some (JStr "A")) /\
+  (exists r, layer_many id_oracle ex_read ["a"; "b"; "a"; "c"] = Some r /\ get_path ["global"; "x"] r = Some (JStr "C")) /\
+  AM.separatedb ex_agg_refs ex_agg_ps = true /\ AM.unambiguousb ex_agg_refs ex_agg_ps = true /\
+  aggregate_set (@rev _) ex_agg_refs (AM.flatten ex_agg_ps) =
+    "cat stage0.mygen0:ref stage0.mygen1:ref stage0.gen0:ref stage0.gen1:ref".
+Proof.
+  cbv zeta. split; [|split; [|split; [|split; [|split]]]].
+  - eexists. split; [vm_compute; reflexivity|]. repeat split.
+  - eexists. eexists. split; [vm_compute; reflexivity|]. split; [vm_compute; reflexivity|]. split; reflexivity.
+  - eexists. split; [vm_compute; reflexivity|]. reflexivity.
+  - vm_compute; reflexivity.
+  - vm_compute; reflexivity.
+  - vm_compute; reflexivity.
 Qed.
